@@ -21,6 +21,7 @@ RULE = ("harness-built cover-labelled networks: N 8..16 vertices, 5..12 motifs f
         "motifs pairwise sharing <= 1 vertex, with cycles in the motif hypergraph (10% tree-like controls); phi grid of 11 (quick) / 21 (thorough) "
         "points + random; iterations in {1,2,3,5,25,60}; histories of 10..40 queries per object in random, ascending and descending phi order with "
         "repeats; every case then evaluates a SECOND network (same motif ids and vertex labelling, other shapes) with a new object in the same process; non-trivial = giant-component fraction > 1e-3 at some fast-convergence phi; distinct = SHA-1 of the labelled network")
+RULE += ("; rounds k-l added: " + 'island components on vertices of their own in 40% of the networks: closed ones without a degree-1 vertex (triangle, 4-cycle, K4, two triangles sharing a vertex) next to open ones (single edge, tadpole)')
 ASSUMPTIONS = ["equality with the reference fixed point is asserted only at phi where the reference converges to 1e-13 within 20 sweeps under four different in-place update orders (forward, reverse, two random) and all four agree (fast, order-independent points), at 1e-6; where the equations have several fixed points the property does not say which update order selects 'the' fixed point",
                "label format f'{k}-{vertices}-{edges}-{id}' as the mixin parses it; vertex ids are non-negative ints",
                "`_H_tau` residual check is auxiliary (hasattr-guarded)"]
